@@ -113,7 +113,7 @@ class C04(Check):
             big = rng.random() < 0.25
             ops = [gen.gen_op(rng, "cellrow", "big" if big else "small") for _ in range(rng.randint(1, 3))]
             ops += gen.gen_program(rng, gen.MIX_LATTICE, rng.randint(2, 6), "small", ["lbox:0,0,0,1,1,1"])[1:]
-            thr, lazy, nsched = (1 if big else rng.choice([64, 16])), 0, 4
+            thr, lazy, nsched = (1 if big else rng.choice([64, 64, 64, 16])), 0, 6
         elif arm == "2d":
             ops = gen.gen_program(rng, gen.MIX_2D, rng.randint(8, 20), rng.choice(["small", "big"]))
             thr, lazy, nsched = rng.choice([1, 64]), 0, 2
@@ -131,8 +131,10 @@ class C04(Check):
         prog = gen.prog_text(case["ops"])
         base = {"prog": prog, "lazy": case["lazy"], "maxtri": 150000 if case["arm"] == "big" else 60000}
         jobs = [{"flavour": "ser", "kind": "prog", "args": dict(base, thr=case["thr"]), "timeout": 600, "case": case, "role": "ref"}]
-        for _ in range(case["nsched"]):
+        for si in range(case["nsched"]):
             pa = self.par_args(rng, case["thr"])
+            if case["arm"] == "cells":
+                pa["W"] = WS[si % len(WS)]  # partition sizes depend on the arena concurrency: cover every worker count
             jobs.append({"flavour": "par", "kind": "prog", "args": dict(base, **pa), "timeout": 900, "case": case, "role": "par"})
         return jobs
 
@@ -149,7 +151,7 @@ class C04(Check):
         while self.time_left() > (20 if quick else 60):
             rounds += 1
             cases = []
-            arms = (["small"] * 20 + ["lattice"] * 8 + ["cells"] * 8 + ["lazy"] * 6 + ["2d"] * 6 + ["medium"] * 4 + ["big"] * (5 if quick else 8))
+            arms = (["small"] * 20 + ["lattice"] * 8 + ["cells"] * 10 + ["lazy"] * 6 + ["2d"] * 6 + ["medium"] * 4 + ["big"] * (5 if quick else 8))
             for arm in arms:
                 cases.append(self.make_case(rng, arm))
             jobs = []
